@@ -10,6 +10,15 @@ CHECKS = {
  "C05": dict(technique=DBE + " plus a metamorphic oracle (text vs. its AST-level expansion)",
              text="All files with <=k deviations from the default Define/ModelAlias scenario (placement, redefinition, 0..3 uses in 1..3 blocks, negated uses, alias parameter lists with Define'd names, copied and conjugated tables) are parsed and compared with the reference semantics, with the expanded text, and with dict_definitions/dict_model_aliases.",
              note="Bound 2 (quick) / 3 (thorough) deviations; +name, alias-of-alias and alias names equal to model names are outside the space.", ref="3/C05"),
+ "C03": dict(technique=DBE + "; complete sweeps over all 684 paired EvtGen names as CDecay subject and over alias spellings (every initial letter, both ChargeConj orientations)",
+             text="Every file with <=k deviations from the default CDecay scenario (naming, statement order (all 24), source via CopyDecay, Decay for X, missing source, self-conjugate subject, 1..4 CDecay statements, unrelated tables) is parsed with the switch on and off and the whole set of tables is compared with the reference conjugation built from the raw particle data files.",
+             note="Bound 2 / 3 deviations; names that are the subject of two CDecay statements and non-involutive ChargeConj tables are outside the space.", ref="3/C03"),
+ "C06": dict(technique="complete enumeration of the model-name table: 135 names x 5 contexts, all 30 prefix pairs in both orders, 1044 prefix registrations, user names with regex metacharacters, ~2000 near-miss unknown words (accept/reject oracle on the real parser)",
+             text="All published names, all prefix-related pairs, every proper prefix of a published name registered as a user model, and near-miss unknown words are run through the real parser; accepted texts are compared field by field with the AST, unknown words must raise.",
+             note="Complete over the stated tables; user names ending in a non-word character are outside the space.", ref="3/C06"),
+ "C07": dict(technique=DBE + "; complete enumeration of PHOTOS-flag sequences (<=4 flags x 3 positions each), label alphabet and numeric-form sweeps for every statement kind",
+             text="Files with 0..3 statements of each of the 14 global statement kinds (colliding names, value forms, positions relative to Decay blocks, repeated lineshape settings) within the deviation bound are parsed and every global query is compared, typed, with the reference later-wins semantics.",
+             note="Bound 2 / 3 deviations; default widths only for names with a known reference width.", ref="3/C07"),
  "C14": dict(technique="explicit-state BFS over call histories of the real DescriptorFormat (state hashing on config + hidden per-object state) against a stack reference model; second driver through real with-blocks",
              text="Every history of create/enter/leave/leave-by-exception/set/invalid-set operations up to the stated length (all histories up to the forced depth, state-hashed beyond) is executed on the real class and compared after every step with a stack model of the format in force; bounded exhaustive, no sampling.",
              note="Bounded by history length and at most 3 context objects; two valid and eight invalid pattern pairs.", ref="3/C14"),
